@@ -83,7 +83,7 @@ def cases(tier):
     return cs
 
 
-OPTS = {'quick': dict(max_paths=2000, timeout_ms=20000), 'thorough': dict(max_paths=2000, timeout_ms=60000)}
+OPTS = {'quick': dict(max_paths=2000, timeout_ms=30000), 'thorough': dict(max_paths=2000, timeout_ms=180000)}
 
 
 def met(I, eq):
